@@ -111,13 +111,15 @@ def _apply_expr(e, where):
         if isinstance(l, ast.Name) and l.id == 'kernel': return f'mulF ({_apply_expr(r, where)}) kernel'
     raise Refuse(f'{where}: unsupported blur application {_u(e)[:70]}')
 
-def _renorm_expr(e, where):
-    """`out * np.sum(img) / np.sum(out)`: element `out`, totals `sumImg`, `sumOut`"""
+def _renorm_expr(e, where, total=None):
+    """`out * np.sum(img) / np.sum(out)`: element `out`, totals `sumImg`, `sumOut`; `total` names a local bound to `np.sum(out)`
+    by an earlier `total = np.sum(out)` (None: no such local)"""
     if isinstance(e, ast.Name) and e.id == 'out': return 'out'
+    if isinstance(e, ast.Name) and total is not None and e.id == total: return 'sumOut'
     if _u(e) == 'np.sum(img)': return 'sumImg'
     if _u(e) == 'np.sum(out)': return 'sumOut'
     if isinstance(e, ast.BinOp) and isinstance(e.op, (ast.Mult, ast.Div)):
-        return f'({_renorm_expr(e.left, where)} {"*" if isinstance(e.op, ast.Mult) else "/"} {_renorm_expr(e.right, where)})'
+        return f'({_renorm_expr(e.left, where, total)} {"*" if isinstance(e.op, ast.Mult) else "/"} {_renorm_expr(e.right, where, total)})'
     raise Refuse(f'{where}: unsupported renormalisation {_u(e)[:70]}')
 
 def _translate(fn, scalars, where, none_branch=False):
@@ -130,6 +132,7 @@ def _translate(fn, scalars, where, none_branch=False):
     body = list(fn.body)
     if body and isinstance(body[0], ast.Expr) and isinstance(body[0].value, ast.Constant): body = body[1:]
     kernel, renorm, apply_ = None, None, None
+    total, guard = None, False      # local bound to np.sum(out); `if total == 0: return out` seen
     for s in body:
         t = _u(s)
         if t == 'img = np.asarray(img)': continue
@@ -151,18 +154,33 @@ def _translate(fn, scalars, where, none_branch=False):
                 continue
             if isinstance(tg, ast.Name):
                 if tg.id == 'out':
+                    if total is not None or guard: raise Refuse(f'{where}: `out` reassigned after its total was taken')
                     apply_ = _apply_expr(s.value, where); continue
+                if apply_ is not None:
+                    # after the blur only `<name> = np.sum(out)` is understood (the total the guard and the rescaling share)
+                    if ast.unparse(s.value) != 'np.sum(out)' or total is not None or guard:
+                        raise Refuse(f'{where}: unexpected statement after the blur `{t[:70]}`')
+                    total = tg.id; continue
                 env[tg.id] = _expr(s.value, env, where)
                 if tg.id == 'kernel': kernel = env[tg.id]
                 continue
+        if isinstance(s, ast.If) and apply_ is not None and not guard:
+            # the zero-total guard: `if <total> == 0: return out` (the un-normalised blur is returned when it has no signal)
+            tt = ast.unparse(s.test)
+            ok = (tt in ([f'{total} == 0'] if total is not None else []) + ['np.sum(out) == 0'] and not s.orelse and len(s.body) == 1
+                  and isinstance(s.body[0], ast.Return) and s.body[0].value is not None and ast.unparse(s.body[0].value) == 'out')
+            if not ok: raise Refuse(f'{where}: unsupported guard before the renormalisation `{t[:90]}`')
+            guard = True; continue
         if isinstance(s, ast.Return):
-            if apply_ is None: apply_, renorm = _apply_expr(s.value, where), None
-            else: renorm = _renorm_expr(s.value, where)
+            if apply_ is None:
+                apply_, renorm = _apply_expr(s.value, where), None
+            else: renorm = _renorm_expr(s.value, where, total)
             break
         raise Refuse(f'{where}: unexpected statement `{t[:70]}`')
     if not (isinstance(kernel, Grid) and apply_ is not None): raise Refuse(f'{where}: kernel / application / return not found')
     if kernel.r == '1' or kernel.c == '1': raise Refuse(f'{where}: kernel is not two-dimensional')
-    return kernel, renorm, defaults, apply_
+    if (guard or total is not None) and not renorm: raise Refuse(f'{where}: a total / zero-total guard without a renormalising return')
+    return kernel, renorm, defaults, apply_, guard
 
 def _pixelate(repo):
     """detector.pixelate: `img = lentil.detector.pixel(img, oversample)` then `return lentil.rescale(img, <scale>, order=…, mode=…, unitary=…)`"""
@@ -200,7 +218,7 @@ def generate(repo):
         mod = ast.parse(open(os.path.join(repo, src)).read())
         fn = [n for n in mod.body if isinstance(n, ast.FunctionDef) and n.name == fname]
         if not fn: raise Refuse(f'{src}: function {fname} not found')
-        k, renorm, defaults, apply_ = _translate(fn[0], scalars, fname)
+        k, renorm, defaults, apply_, guard = _translate(fn[0], scalars, fname)
         if defaults != want_defaults: raise Refuse(f'{fname}: default arguments changed: {defaults}')
         ps = ' '.join(scalars)
         L.append(f'/-- `{src}:{fname}` (line {fn[0].lineno}): entry `[i, j]` of `kernel`, operations in source order; `freq n i` is '
@@ -211,9 +229,11 @@ def generate(repo):
                  f'def bw{name}KernelShape (s0 s1 : Int) : Int × Int := ({k.r}, {k.c})\n'
                  f'/-- whether the result is rescaled, and by which expression of an output sample and the totals `np.sum(img)`, `np.sum(out)` -/\n'
                  f'def bw{name}Renorm : Bool := {"true" if renorm else "false"}\n'
-                 f'def bw{name}RenormExpr (out sumImg sumOut : R) : R := {renorm if renorm else "out"}\n')
+                 f'def bw{name}RenormExpr (out sumImg sumOut : R) : R := {renorm if renorm else "out"}\n'
+                 f'/-- whether `if np.sum(out) == 0: return out` guards that rescaling (a frame whose blur has no signal is returned un-normalised) -/\n'
+                 f'def bw{name}RenormGuard : Bool := {"true" if guard else "false"}\n')
         if fname == 'smear':
-            kn, _, _, _ = _translate(fn[0], scalars, fname, none_branch=True)
+            kn, _, _, _, _ = _translate(fn[0], scalars, fname, none_branch=True)
             psn = ' '.join(p for p in scalars if p != 'angle')
             L.append(f'/-- `{fname}` with `angle=None`: the direction is `np.random.uniform(lo, hi)` = `lo + (hi − lo)·u`, `u` the uniform [0, 1) variate '
                      f'of the global generator, used as written in the source (no unit conversion unless the source applies one) -/\n'
@@ -225,7 +245,7 @@ def generate(repo):
     for name, src, fname, scalars, _ in FNS:
         mod = ast.parse(open(os.path.join(repo, src)).read())
         fn = [n for n in mod.body if isinstance(n, ast.FunctionDef) and n.name == fname][0]
-        _, _, _, apply_ = _translate(fn, scalars, fname)
+        _, _, _, apply_, _ = _translate(fn, scalars, fname)
         L.append(f'/-- `{fname}`: how the output is composed from `np.abs`, `np.fft.ifft2`, `np.fft.fft2` and the product with the kernel -/\n'
                  f'def bw{name}Apply {{I X Y O Kn : Type}} (absF : Y → O) (ifft2F : X → Y) (fft2F : I → X) (mulF : X → Kn → X) (img : I) (kernel : Kn) : O :=\n'
                  f'  {apply_}\n')
